@@ -150,8 +150,12 @@ Definition stale_node (o : obs_graph) (k : Z) (a : attrs) : bool :=
 Definition stale_hcount_aromatic (o : obs_graph) : bool :=
   existsb (fun p => stale_node o (fst p) (snd p)) (fst o).
 
+(** the hypotheses of the totality / count theorems hold of the recorded input of squash_atoms *)
+Definition hyps_ok (g : graph) : bool := wf_graphb g && bondings_okb g && typed_gb g.
+
 Definition corr_ok (c : case) : bool :=
   if c_skip c then true else
+  hyps_ok (c_sq0 c) &&
   match squash_atoms (c_sq0 c), c_sq1 c with
   | Ok g, Some o => obs_eqb (observe g) o
   | Err _, None => true
